@@ -372,6 +372,8 @@ def run(rep):
     if crashes:
         rep.crash = crashes[0]
     from pgv.replayers import c19 as R19
+    for res in R19.generation_route_cases():
+        rep.add_bounded(f"{P}/bounded.{res['name']}", res['ok'], res['detail'], replay={'kind': 'c19.generation', 'name': res['name']})
     for res in R19.point_isotherm_cases():
         rep.add_bounded(f"{P}/bounded.{res['name']}", res['ok'], res['detail'], replay={'kind': 'c19.points', 'name': res['name']})
     rep.notes.append('2..5 temperatures in any order (the whole quantified range); enthalpies, offsets and temperatures symbolic')
